@@ -194,6 +194,14 @@ pub fn single_devs(cfg: &Value, small: bool) -> Vec<Dev> {
     // (1/2, 1/3, 1/4, k / blow-up exponent, k / query count) - huge as integers
     let num = |k: &str| cfg.get(k).and_then(|v| v.as_str()).and_then(|h| Felt::from_hex(h).ok()).and_then(|f| f.inverse());
     let mut fractions: Vec<Felt> = [2u64, 3, 4].iter().filter_map(|k| fu(*k).inverse()).collect();
+    // ... and exponents moved by the multiplicative order of 2 (2^(e + ord) = 2^e in the field)
+    let ord2 = b2f(&crate::refm::zint::order_of_two());
+    for k in ["log_trace_domain_size", "log_n_cosets"] {
+        if let Some(f) = cfg.get(k).and_then(|v| v.as_str()).and_then(|h| Felt::from_hex(h).ok()) {
+            fractions.push(f + ord2);
+        }
+    }
+    fractions.push(ord2);
     for inv in [num("log_n_cosets"), num("n_queries")].into_iter().flatten() {
         fractions.push(inv);
         fractions.push(inv * fu(20));
